@@ -108,6 +108,10 @@ def run(chk: Check):
                         n = 12; sim, real, shape = gen_data(rng, e, n, d, shape)
                     cov = rng.choice(["identity", "identity", "inverse_variance", "matrix"])
                     std = rng.random() < 0.3
+                    # every combination of weighting and standardisation in every run, in turn (left to chance, a run of ~40 MSM cases misses one of the six now and then)
+                    _k = chk.hist.get("msm_option_cycle", 0)
+                    cov, std = [(c_, s_) for s_ in (False, True) for c_ in ("identity", "inverse_variance", "matrix")][_k % 6]
+                    chk.count("msm_option_cycle")
                     if cov == "matrix":
                         a = np.random.default_rng(ci).standard_normal((18, 18)); cm = (a + a.T) / 2
                         mk = lambda: MethodOfMomentsLoss(covariance_mat=cm, coordinate_weights=wnp, standardise_moments=std)  # noqa: E731
